@@ -1,0 +1,187 @@
+//! Verification seams. Compiled only with `--cfg kepler_5_rrss_verif`; the
+//! shipped build never sees this module.
+//!
+//! The interpreter's only source of entropy is the randomly keyed hasher of
+//! `std::collections::HashMap`. This module puts that key behind a seam: a
+//! `HashMap` newtype whose hasher key is derived from a seed chosen by the
+//! caller (thread-local, or the `RRSS_VERIF_HASH_SEED` environment variable
+//! for the command-line tool), so that one seed is one exact dictionary layout
+//! and iteration order.
+
+use std::{
+    cell::{Cell, RefCell},
+    fmt,
+    hash::{BuildHasher, Hash, Hasher},
+    ops::{Deref, DerefMut},
+};
+
+thread_local! {
+    static HASH_SEED: Cell<Option<u64>> = Cell::new(None);
+    static MAP_COUNTER: Cell<u64> = Cell::new(0);
+    static PROBE_ON: Cell<bool> = Cell::new(false);
+    static DICT_ORDER_PROBE: RefCell<Vec<String>> = RefCell::new(Vec::new());
+}
+
+/// Sets the hasher seed for maps created on this thread from now on and
+/// restarts the per-map counter, so that a run is a function of the seed.
+pub fn set_hash_seed(seed: u64) {
+    HASH_SEED.with(|s| s.set(Some(seed)));
+    MAP_COUNTER.with(|c| c.set(0));
+}
+
+fn env_seed() -> u64 {
+    std::env::var("RRSS_VERIF_HASH_SEED")
+        .ok()
+        .and_then(|s| s.parse().ok())
+        .unwrap_or(0)
+}
+
+fn current_seed() -> u64 {
+    HASH_SEED.with(|s| match s.get() {
+        Some(seed) => seed,
+        None => {
+            let seed = env_seed();
+            s.set(Some(seed));
+            seed
+        }
+    })
+}
+
+fn mix(mut z: u64) -> u64 {
+    z = z.wrapping_add(0x9e37_79b9_7f4a_7c15);
+    z = (z ^ (z >> 30)).wrapping_mul(0xbf58_476d_1ce4_e5b9);
+    z = (z ^ (z >> 27)).wrapping_mul(0x94d0_49bb_1331_11eb);
+    z ^ (z >> 31)
+}
+
+/// Like `RandomState`: every map gets its own key, but the keys are a
+/// function of the seed and of the order in which maps are created.
+#[derive(Clone, Copy, Debug)]
+pub struct SeededState {
+    key: u64,
+}
+
+impl SeededState {
+    pub fn new() -> Self {
+        let n = MAP_COUNTER.with(|c| {
+            let n = c.get();
+            c.set(n.wrapping_add(1));
+            n
+        });
+        Self {
+            key: mix(current_seed() ^ mix(n)),
+        }
+    }
+}
+
+impl Default for SeededState {
+    fn default() -> Self {
+        Self::new()
+    }
+}
+
+impl BuildHasher for SeededState {
+    type Hasher = SeededHasher;
+    fn build_hasher(&self) -> SeededHasher {
+        SeededHasher { state: self.key }
+    }
+}
+
+pub struct SeededHasher {
+    state: u64,
+}
+
+impl Hasher for SeededHasher {
+    fn write(&mut self, bytes: &[u8]) {
+        for b in bytes {
+            self.state = (self.state ^ u64::from(*b)).wrapping_mul(0x0000_0100_0000_01b3);
+        }
+    }
+    fn finish(&self) -> u64 {
+        mix(self.state)
+    }
+}
+
+/// Stand-in for `std::collections::HashMap` with the seeded hasher; everything
+/// else is the std map (through `Deref`).
+pub struct HashMap<K, V>(std::collections::HashMap<K, V, SeededState>);
+
+impl<K, V> HashMap<K, V> {
+    pub fn new() -> Self {
+        Self(std::collections::HashMap::with_hasher(SeededState::new()))
+    }
+}
+
+impl<K, V> Default for HashMap<K, V> {
+    fn default() -> Self {
+        Self::new()
+    }
+}
+
+impl<K, V> Deref for HashMap<K, V> {
+    type Target = std::collections::HashMap<K, V, SeededState>;
+    fn deref(&self) -> &Self::Target {
+        &self.0
+    }
+}
+
+impl<K, V> DerefMut for HashMap<K, V> {
+    fn deref_mut(&mut self) -> &mut Self::Target {
+        &mut self.0
+    }
+}
+
+impl<K: Clone, V: Clone> Clone for HashMap<K, V> {
+    fn clone(&self) -> Self {
+        Self(self.0.clone())
+    }
+}
+
+impl<K: fmt::Debug, V: fmt::Debug> fmt::Debug for HashMap<K, V> {
+    fn fmt(&self, f: &mut fmt::Formatter<'_>) -> fmt::Result {
+        self.0.fmt(f)
+    }
+}
+
+impl<K: Eq + Hash, V: PartialEq> PartialEq for HashMap<K, V> {
+    fn eq(&self, other: &Self) -> bool {
+        self.0 == other.0
+    }
+}
+
+impl<K: Eq + Hash, V> FromIterator<(K, V)> for HashMap<K, V> {
+    fn from_iter<T: IntoIterator<Item = (K, V)>>(iter: T) -> Self {
+        let mut map = Self::new();
+        map.0.extend(iter);
+        map
+    }
+}
+
+impl<'a, K, V> IntoIterator for &'a HashMap<K, V> {
+    type Item = (&'a K, &'a V);
+    type IntoIter = std::collections::hash_map::Iter<'a, K, V>;
+    fn into_iter(self) -> Self::IntoIter {
+        self.0.iter()
+    }
+}
+
+/// Reach probe: while enabled, every iteration over a dictionary records the
+/// raw (hasher) order of its keys, so a harness can count how many distinct
+/// orders it really exercised.
+pub fn enable_dict_order_probe(on: bool) {
+    PROBE_ON.with(|p| p.set(on));
+}
+
+pub fn take_dict_order_probe() -> Vec<String> {
+    DICT_ORDER_PROBE.with(|p| std::mem::take(&mut *p.borrow_mut()))
+}
+
+pub fn probe_dict_order<'a, K: fmt::Display + 'a>(
+    site: &'static str,
+    keys: impl Iterator<Item = &'a K>,
+) {
+    if PROBE_ON.with(|p| p.get()) {
+        let order = keys.map(|k| k.to_string()).collect::<Vec<_>>().join(",");
+        DICT_ORDER_PROBE.with(|p| p.borrow_mut().push(format!("{}:{}", site, order)));
+    }
+}
